@@ -1,2 +1,65 @@
-(* placeholder until the proofs land *)
-From Dials Require Import Stack.Overlay Stack.StackSpec.
+(* Property C01 - layer precedence: the last source that sets a leaf wins,
+   else the default.  Statements only; proofs in Stack/StackProofs.v.
+
+   compose / overlay_struct mirror dials' compose / overlayStruct (two cursors);
+   stack is the specification: every config field is paired with the layer
+   field OF THE SAME NAME, a leaf takes the value of the last layer where it
+   is non-nil (else the default), structs and pointers to structs merge field
+   by field (recursively the same rule), skipped fields keep the default. *)
+From Coq Require Import List NArith ZArith Bool.
+From Dials Require Import Base.Outcome Base.Runes Reflect.Ty Reflect.Ptrify Stack.Overlay Stack.StackSpec
+  Stack.Spine Stack.StackProofs Stack.StackFacts.
+Import ListNotations.
+
+(* For every config struct type inside C01's quantifier (cfg_ok: no
+   interface-typed fields, distinct field names), every default value, every
+   number and order of layers of the pointerified type and every set/unset
+   pattern: stacking never fails or panics, the positional walk over the
+   pointerified fields is aligned with the config's fields, and the result is
+   exactly the by-name, last-set-wins specification. *)
+Theorem compose_eq_stack : forall fs d ls,
+  cfg_ok fs = true -> spine_fields fs d = true -> forallb (layer_ok fs) ls = true ->
+  compose fs d ls = Ok (stack fs d ls).
+Proof. intros fs d ls H1 H2 H3. exact (proj1 (compose_eq_stack_l fs H1 ls d H2 H3)). Qed.
+
+(* each leaf = value of the last layer that set the same-named field, else the default *)
+Theorem stack_leaf_last_wins : forall fs i bvs names layers n tags t b,
+  nth_field i fs = Some (n, tags, t) -> omit_field n tags || is_chan_func t = false -> is_leaf t = true ->
+  nth_error bvs i = Some b -> length bvs = fields_len fs ->
+  nth_error (stack_fields fs bvs names layers) i =
+  Some (match last_set (map (by_name n names) layers) with Some lv => unwrap t lv | None => b end).
+Proof. exact stack_leaf_last_wins_l. Qed.
+
+(* nested structs merge field by field, by the same rule, over the layers that set them *)
+Theorem stack_struct_merges : forall fs i bvs names layers n tags sfs sname sb,
+  nth_field i fs = Some (n, tags, TStruct sfs sname) -> omit_field n tags = false ->
+  nth_error bvs i = Some (VStruct sb) -> length bvs = fields_len fs ->
+  nth_error (stack_fields fs bvs names layers) i =
+  Some (VStruct (stack_fields sfs sb (field_names (ptrify_fields sfs))
+                   (sub_layers (map (by_name n names) layers)))).
+Proof. exact stack_struct_merges_l. Qed.
+
+(* a source that sets nothing changes nothing, wherever it sits in the stack *)
+Theorem stack_unset_layer_id : forall fs d ls1 l ls2, all_unset l = true ->
+  stack fs d (ls1 ++ l :: ls2) = stack fs d (ls1 ++ ls2).
+Proof. exact stack_unset_layer_id_l. Qed.
+
+(* skipped fields (unexported, dials:"-", chan, func) keep their default for
+   any layers - and, by compose_eq_stack, no value is ever shifted into a neighbour *)
+Theorem stack_skipped_frame : forall fs i bvs names layers n tags t,
+  nth_field i fs = Some (n, tags, t) -> omit_field n tags || is_chan_func t = true ->
+  length bvs = fields_len fs ->
+  nth_error (stack_fields fs bvs names layers) i = nth_error bvs i.
+Proof. exact stack_skipped_frame_l. Qed.
+
+(* layers compose: stacking is a left fold of the one-layer merge *)
+Theorem stack_layers_compose : forall fs bvs names l1 l2,
+  stack_fields fs bvs names (l1 ++ l2) = stack_fields fs (stack_fields fs bvs names l1) names l2.
+Proof. exact (proj2 stack_app). Qed.
+
+Print Assumptions compose_eq_stack.
+Print Assumptions stack_leaf_last_wins.
+Print Assumptions stack_struct_merges.
+Print Assumptions stack_unset_layer_id.
+Print Assumptions stack_skipped_frame.
+Print Assumptions stack_layers_compose.
